@@ -375,6 +375,12 @@ def c18(ctx):
     ok, _ = model_check(ctx, "FieldLimbsNeg.tla", "FieldLimbsNeg.cfg", expect_ok=False)   # control: Neg with bias p (not 2p) underflows
     if ok:
         raise Infra("model control failed: FieldLimbs accepts a p-biased negation")
+    # the 10x25.5 layout (alternating widths, in-place doubling of the odd limbs in Mul, partial carry in Sub) at 4 and 6 limbs
+    for cfg in (["FieldLimbs32_4.cfg", "FieldLimbs32_6.cfg"] if ctx.thorough else ["FieldLimbs32_4q.cfg", "FieldLimbs32_6q.cfg"]):
+        model_check(ctx, "FieldLimbs32.tla", cfg, timeout=7200)
+    ok, _ = model_check(ctx, "FieldLimbs32.tla", "FieldLimbs32_6neg.cfg", expect_ok=False)   # control: r3 = r3*19 without the halving
+    if ok:
+        raise Infra("model control failed: FieldLimbs32 accepts Mul without the halving of the doubled odd limbs")
     model_check(ctx, "MCDecode.tla", "MCDecode.cfg")
     num_family(ctx, NUM_CONFIGS_THOROUGH if ctx.thorough else NUM_CONFIGS_QUICK)
     finish(ctx, "field operations of both limb layouts (5x51 in the default build, 10x25.5 with force32bit) driven on reduced elements from limb-boundary byte patterns (each limb 0 / 1 / mask-19 / mask-1 / mask / random, "
